@@ -133,6 +133,10 @@ func (s *Service) getClusterPresence(ssid message.Ssid) []Info {
 			// Wait for all presence updates to come back (or a deadline)
 			for _, resp := range awaiter.Gather(1000 * time.Millisecond) {
 				info := []Info{}
+				if !message.FitsCount(resp, 2) {
+					continue // declares more entries than it can hold
+				}
+
 				if err := binary.Unmarshal(resp, &info); err == nil {
 					//logging.LogTarget("query", "response gathered", info)
 					who = append(who, info...)
